@@ -12,7 +12,8 @@ pub fn seg_alphabet(f: Family, level: u8) -> Vec<Vec<u8>> {
 	// "1:b": a first segment that contains ':' without looking like a scheme
 	let mut v: Vec<&str> = vec!["", ".", "..", "a", "a:b", "1:b"];
 	if level >= 1 {
-		v.extend(["b", "%2E", "%41", "A", "~", "x@y"]);
+		// "%2E%2E": an ordinary segment that only DECODES to ".."
+		v.extend(["b", "%2E", "%2E%2E", "%41", "A", "~", "x@y"]);
 	}
 	if level >= 2 {
 		v.extend(["%2F", "%FF", "%c3%a9", "...", ".a", ";=+"]);
